@@ -114,3 +114,96 @@ def replay(prop, path):
             print("not reproduced: %s" % data.get("signature"))
             return 0
     raise ToolError("no replay procedure for %s with this file" % prop)
+
+
+# ------------------------------------------------------------------------------------------------
+# C16  tokeniser / tracker / splitter
+# ------------------------------------------------------------------------------------------------
+def check_c16(tier, t0):
+    import time
+    from common import run_tlc, tlc_require_clean, extract_json_lines, workdir
+    wd = workdir("C16-%s" % tier)
+    suffix = "thorough" if tier == "thorough" else "quick"
+    states = trans = 0
+    vio = []
+    # (1) tokeniser: all line sequences up to MaxLines
+    mc = run_tlc("MC_Tokens.tla", "MC_Tokens_%s.cfg" % suffix, wd, timeout=1500)
+    tlc_require_clean(mc, "Tokens")
+    states += mc["distinct"]; trans += mc["generated"]
+    tok_cases = os.path.join(wd, "tok_cases.ndjson")
+    ntok = extract_json_lines(mc["out_path"], tok_cases)
+    os.remove(mc["out_path"])
+    tok_out = os.path.join(wd, "tok_out.json")
+    run_harness(["tokens", "--cases", tok_cases, "--out", tok_out])
+    tk = json.load(open(tok_out))
+    if tk["twin_mismatch"]:
+        raise ToolError("the Rust twin of the reference tokeniser disagrees with Tokens.tla on %d texts" % tk["twin_mismatch"])
+    vio += tk["violations"]
+    log("[C16] tokeniser: %d texts, %d minimal failing patterns" % (tk["evaluated"], len(tk["violations"])))
+    # (2) tracker: design invariants on all histories (no VIEW), then one history per transition
+    inv = run_tlc("MC_Tracker.tla", "MC_Tracker_inv%s.cfg" % ("_thorough" if tier == "thorough" else ""), wd, timeout=2400)
+    tlc_require_clean(inv, "Tracker invariants")
+    states += inv["distinct"]; trans += inv["generated"]
+    gen = run_tlc("MC_Tracker.tla", "MC_Tracker_%s.cfg" % suffix, wd, timeout=1500)
+    tlc_require_clean(gen, "Tracker histories")
+    states += gen["distinct"]; trans += gen["generated"]
+    trk_cases = os.path.join(wd, "trk_cases.ndjson")
+    nh = extract_json_lines(gen["out_path"], trk_cases)
+    os.remove(gen["out_path"])
+    trk_traces = os.path.join(wd, "trk_traces.ndjson")
+    trk_out = os.path.join(wd, "trk_out.json")
+    run_harness(["tracker", "--cases", trk_cases, "--traces", trk_traces, "--out", trk_out])
+    tr = json.load(open(trk_out))
+    vio += tr["violations"]
+    tv = msglevel.validate_traces(wd, trk_traces, cfg="TrackerTrace.cfg", module="TrackerTrace.tla")
+    states += tv["states"]; trans += tv["generated"]
+    for r in tv["results"]:
+        vio.append({"sig": "C16|tracker|%s" % "+".join(sorted(r["dev"])),
+                    "replay": {"kind": "tracker", "history_id": r["id"], "cases_file": trk_cases}})
+    log("[C16] tracker: %d histories (one per specification transition), %d trace lines explained, %d flagged" %
+        (nh, tv["lines"], len(tv["results"])))
+    # (3) splitter
+    sp = run_tlc("MC_Split.tla", "MC_Split_%s.cfg" % suffix, wd, timeout=1500)
+    tlc_require_clean(sp, "Split inputs")
+    states += sp["distinct"]; trans += sp["generated"]
+    spl_cases = os.path.join(wd, "spl_cases.ndjson")
+    ns = extract_json_lines(sp["out_path"], spl_cases)
+    os.remove(sp["out_path"])
+    spl_traces = os.path.join(wd, "spl_traces.ndjson")
+    spl_out = os.path.join(wd, "spl_out.json")
+    run_harness(["split", "--cases", spl_cases, "--traces", spl_traces, "--out", spl_out])
+    so = json.load(open(spl_out))
+    vio += so["violations"]
+    sv = msglevel.validate_traces(wd, spl_traces, cfg="TrackerTrace.cfg", module="TrackerTrace.tla")
+    states += sv["states"]; trans += sv["generated"]
+    for r in sv["results"]:
+        vio.append({"sig": "C16|split|%s" % "+".join(sorted(r["dev"])),
+                    "replay": {"kind": "split", "run_id": r["id"], "cases_file": spl_cases}})
+    log("[C16] split: %d tag sequences x 8 configurations, %d flagged" % (ns, len(sv["results"])))
+    for f in (spl_traces,):
+        try:
+            os.remove(f)
+        except OSError:
+            pass
+    cov = {
+        "states": states, "transitions": trans,
+        "traces_validated_against_impl": tr["histories"] + so["splits"],
+        "trace_events_explained": tv["lines"] + sv["lines"],
+        "evaluations": tk["evaluated"] + tr["histories"] + so["splits"],
+        "distinct_nontrivial": tk["distinct_nontrivial"] + tr["distinct_nontrivial"] + ns,
+        "rule": "tokeniser: every line sequence up to MaxLines over 12 line classes (x LF/CRLF), non-trivial = more than one line "
+                "or a non-field line; tracker: one call history per transition of MC_Tracker (8 field maps, Get/Mark/Consume/Find "
+                "with 4 option constraints), non-trivial = more than one call; split: every tag sequence up to MaxLen over 12 tags "
+                "x 8 sequence configurations",
+        "samples": (tk["samples"][:2] + tr["samples"][:2] + so["samples"][:2]) or [{}],
+        "tokeniser_non_minimal_failures_subsumed": tk["subsumed_non_minimal"],
+        "exhaustive": True,
+        "exhaustive_scope": "within MaxLines / MaxDepth / MaxLen of the %s configuration" % suffix,
+    }
+    assumptions = ["reference tokeniser Tok (spec/Tokens.tla) and its Rust twin agree in shape on every generated text (checked each run)",
+                   "a text whose block terminator is not its last line, or that starts with a dash, is outside the enumerated space",
+                   "the contract of find_* leaves the choice between admissible tags open; only the order within a tag is fixed"]
+    return report("C16", tier, "model_checking", vio, cov, assumptions, t0)
+
+
+CHECKS["C16"] = check_c16
